@@ -1,5 +1,5 @@
 (** C05 — any alteration of the encrypted stream is detected. *)
-From HC Require Import Base.HBytes Base.ChaChaPoly Base.ChaChaPolyProofs Gen.Extracted Model.Framing Model.ConnRead Proofs.FramingProofs Proofs.ConnReadProofs Proofs.ConnAdvProofs Model.Pipeline Proofs.PipelineProofs.
+From HC Require Import Base.HBytes Base.ChaChaPoly Base.ChaChaPolyProofs Gen.Extracted Model.Framing Model.ConnRead Proofs.FramingProofs Proofs.ConnReadProofs Proofs.ConnAdvProofs Model.Pipeline Proofs.PipelineProofs Model.PlainFrame Proofs.PlainFrameProofs.
 
 (** For ANY AEAD with open(seal p) = p, any key, any start counter, any plaintext chunks [ps]
     the peer sealed, and ANY byte string [r] arriving instead of the peer's stream (bit flips,
@@ -135,3 +135,34 @@ Print Assumptions C05_framed_reads_serve_only_sealed.
 
 Example C05_finding_history_is_not_framed : framed 0 injected = false.
 Proof. exact injected_is_not_framed. Qed.
+
+(** How /repo tells where a plain text message ends (Model/PlainFrame.v, run against
+    hap.Connection.plainHeaderEnd / plainMessageBytes byte for byte).  The code keeps no scanner state
+    between reads: it looks at the last two bytes it handed over.  For EVERY header [h] handed over so far
+    and EVERY next bytes [b], the end it finds is the end a single scan of the whole stream finds — no cut
+    of the stream into reads moves the boundary behind which bytes are withheld from the HTTP layer ... *)
+Theorem C05_plain_header_end_does_not_depend_on_the_reads : forall h b,
+  scan hinit h = None ->
+  scan hinit (h ++ b) = option_map (Nat.add (length h)) (header_end h b).
+Proof. exact header_end_segmentation. Qed.
+Print Assumptions C05_plain_header_end_does_not_depend_on_the_reads.
+
+(** ... that end is the end of an empty line ("\n\n" or "\n\r\n": a line ends as net/http lets it end) ... *)
+Theorem C05_plain_header_ends_with_an_empty_line : forall s n,
+  scan hinit s = Some n ->
+  (n <= length s)%nat /\ exists p, firstn n s = p ++ [10; 10] \/ firstn n s = p ++ [10; 13; 10].
+Proof. exact header_end_is_an_empty_line. Qed.
+Print Assumptions C05_plain_header_ends_with_an_empty_line.
+
+(** ... and of the first one: no empty line is passed (the header of finding 9586e4d, lines ending with a
+    bare "\n", is the first conjunct). *)
+Theorem C05_plain_header_ends_with_the_first_empty_line : forall p q,
+  (exists n, scan hinit (p ++ [10; 10] ++ q) = Some n /\ (n <= length p + 2)%nat) /\
+  (exists n, scan hinit (p ++ [10; 13; 10] ++ q) = Some n /\ (n <= length p + 3)%nat).
+Proof. exact header_end_is_the_first_empty_line. Qed.
+Print Assumptions C05_plain_header_ends_with_the_first_empty_line.
+
+Example C05_plain_header_cut_inside_the_empty_line :
+  let h := [71; 69; 84; 32; 47; 10; 72; 58; 49; 10] in
+  scan hinit h = None /\ header_end h [10; 80] = Some 1%nat /\ scan hinit (h ++ [10; 80]) = Some 11%nat.
+Proof. exact header_end_lf_example. Qed.
